@@ -18,6 +18,7 @@ type Val struct {
 	GKind string // heap kind override for ghost lvalues
 	Tuple []Val
 	Win   *window // byte window lvalue (for modifies)
+	Root  bool    // modifies item: every cell under the root object of Addr (element cells of a slice)
 }
 
 type window struct{ arr, off, n, guard string }
